@@ -102,7 +102,14 @@ func runA(root, id string, args []string) int {
 	os.MkdirAll(work, 0o755)
 	bin := filepath.Join(work, "check")
 	var out bytes.Buffer
-	if err := run(root, &out, "go", "build", "-o", bin, "./checks/"+strings.ToLower(id)); err != nil {
+	buildArgs := []string{"build", "-o", bin}
+	if ov := os.Getenv("VERIF_OVERLAY"); ov != "" {
+		// development aid: run an engine-A check against mutated sources
+		// without touching /repo
+		buildArgs = append(buildArgs, "-overlay", ov)
+	}
+	buildArgs = append(buildArgs, "./checks/"+strings.ToLower(id))
+	if err := run(root, &out, "go", buildArgs...); err != nil {
 		fmt.Printf("ENGINE-ERROR property=%s build failed:\n%s\n", id, out.String())
 		return 2
 	}
